@@ -66,40 +66,54 @@ pub struct ProcSlot {
     maxevents: i32,
     deadline: u64,
     delivered: Option<i32>,
+    /// the process was crashed by the simulator (`crash_proc`): its thread never runs sozu code again
+    pub crashed: bool,
 }
 
 enum Sched {
     Return(i32),
     Handoff(usize),
+    /// the calling process was crashed and nobody else can run: park the thread for good
+    Halt,
 }
 
 thread_local! {
     pub static PROC_ID: Cell<usize> = const { Cell::new(0) };
 }
-static BATON: (std::sync::Mutex<usize>, std::sync::Condvar) = (std::sync::Mutex::new(0), std::sync::Condvar::new());
+/// The baton names a (world generation, process) pair: a thread left parked by an earlier world (a crashed simulated
+/// process is never woken again) must not mistake a later world's hand-over for its own.
+static BATON: (std::sync::Mutex<u64>, std::sync::Condvar) = (std::sync::Mutex::new(0), std::sync::Condvar::new());
+static WORLD_GEN: std::sync::atomic::AtomicU64 = std::sync::atomic::AtomicU64::new(1);
 
-fn baton_set(to: usize) {
+fn baton_key(generation: u64, id: usize) -> u64 { (generation << 20) | id as u64 }
+fn baton_set(generation: u64, to: usize) {
     let mut g = BATON.0.lock().unwrap();
-    *g = to;
+    *g = baton_key(generation, to);
     BATON.1.notify_all();
 }
-fn baton_wait(me: usize) {
+fn baton_wait(generation: u64, me: usize) {
+    let k = baton_key(generation, me);
     let mut g = BATON.0.lock().unwrap();
-    while *g != me { g = BATON.1.wait(g).unwrap(); }
+    while *g != k { g = BATON.1.wait(g).unwrap(); }
 }
 
 /// `epoll_wait` of a simulated process: the scheduling point. Works on a raw pointer because the
 /// world is shared by all simulated processes; exactly one of them (the baton holder) touches it.
 pub fn epoll_wait_entry(wp: *mut World, epfd: i32, events: *mut libc::epoll_event, maxevents: i32, timeout_ms: i32) -> i32 {
     let me = PROC_ID.with(|p| p.get());
+    let generation = unsafe { (&*wp).generation };
     unsafe { (&mut *wp).park(me, epfd, events, maxevents, timeout_ms) };
     loop {
         let out = unsafe { (&mut *wp).sched_step(me) };
         match out {
             Sched::Return(n) => return n,
+            Sched::Halt => loop { std::thread::park(); },
             Sched::Handoff(q) => {
-                baton_set(q);
-                baton_wait(me);
+                let crashed = unsafe { (&*wp).procs[me].crashed };
+                baton_set(generation, q);
+                // from here on the world belongs to another thread
+                if crashed { loop { std::thread::park(); } }
+                baton_wait(generation, me);
                 if let Some(n) = unsafe { (&mut *wp).take_delivery(me) } {
                     return n;
                 }
@@ -114,8 +128,9 @@ pub fn epoll_wait_entry(wp: *mut World, epfd: i32, events: *mut libc::epoll_even
 pub fn spawn_proc(wp: *mut World, name: &str, f: impl FnOnce() + Send + 'static) -> std::thread::JoinHandle<()> {
     let id = unsafe { (&mut *wp).add_proc(name, true) };
     let wp_addr = wp as usize;
+    let generation = unsafe { (&*wp).generation };
     std::thread::Builder::new().stack_size(16 << 20).name(name.to_string()).spawn(move || {
-        baton_wait(id);
+        baton_wait(generation, id);
         CUR.with(|c| c.set(wp_addr as *mut World));
         PROC_ID.with(|p| p.set(id));
         f();
@@ -127,9 +142,10 @@ pub fn spawn_proc(wp: *mut World, name: &str, f: impl FnOnce() + Send + 'static)
 /// The calling simulated process is done: pass the baton on.
 pub fn proc_exit(wp: *mut World) {
     let me = PROC_ID.with(|p| p.get());
+    let generation = unsafe { (&*wp).generation };
     if let Some(q) = unsafe { (&mut *wp).retire_proc(me) } {
         unsafe { (&mut *wp).start_if_starting(q) };
-        baton_set(q);
+        baton_set(generation, q);
     }
 }
 
@@ -288,6 +304,8 @@ pub struct ConnectRec {
 }
 
 pub struct World {
+    /// unique per World instance in this OS process (see BATON)
+    pub generation: u64,
     pub seed: u64,
     pub now: u64,
     pub sched: Prng,
@@ -351,6 +369,7 @@ impl World {
         static RUNCTR: std::sync::atomic::AtomicU64 = std::sync::atomic::AtomicU64::new(0);
         let n = RUNCTR.fetch_add(1, std::sync::atomic::Ordering::SeqCst);
         Box::new(World {
+            generation: WORLD_GEN.fetch_add(1, std::sync::atomic::Ordering::SeqCst),
             seed,
             now: 1000 * SEC, // monotonic clock starts at 1000 s so `now - timeout` never underflows
             sched: Prng::derive(seed, "sched"),
@@ -399,7 +418,7 @@ impl World {
     pub fn install(w: &mut Box<World>) {
         CUR.with(|c| c.set(&mut **w as *mut World));
         PROC_ID.with(|p| p.set(0));
-        baton_set(0);
+        baton_set(w.generation, 0);
     }
     pub fn uninstall() {
         CUR.with(|c| c.set(std::ptr::null_mut()));
@@ -678,7 +697,8 @@ impl World {
             // poll parked processes in PRNG order
             let mut order: Vec<usize> = (0..self.procs.len()).filter(|i| self.procs[*i].state == P_PARKED).collect();
             if order.len() > 1 { self.sched.shuffle(&mut order); }
-            if order.is_empty() { return Sched::Return(0); }
+            let me_crashed = self.procs[me].crashed;
+            if order.is_empty() { return if me_crashed { Sched::Halt } else { Sched::Return(0) }; }
             for i in order.iter().copied() {
                 let n = self.poll_proc(i, true);
                 if n < 0 {
@@ -695,7 +715,7 @@ impl World {
             // nothing ready for any process
             if self.astate.iter().any(|a| a.runnable && !a.done) {
                 k = 1 + self.burst();
-                if spins > 5_000_000 { self.abort("actor_livelock"); self.procs[me].state = P_RUNNING; return Sched::Return(0); }
+                if spins > 5_000_000 { self.abort("actor_livelock"); if me_crashed { return Sched::Halt; } self.procs[me].state = P_RUNNING; return Sched::Return(0); }
                 continue;
             }
             // quiescent: advance virtual time to the next actor wake-up or process deadline
@@ -704,6 +724,7 @@ impl World {
             if next == u64::MAX {
                 // everybody sleeps forever and nobody will ever act: end of the world
                 self.abort("deadlock");
+                if me_crashed { return Sched::Halt; }
                 self.procs[me].state = P_RUNNING;
                 return Sched::Return(0);
             }
@@ -725,6 +746,30 @@ impl World {
             }
             k = 1;
         }
+    }
+
+    /// Crash simulated process `i` (it must be parked in `epoll_wait`, which every process other than the one whose
+    /// scheduler round is running always is; the running one may crash itself too): every descriptor registered in its
+    /// epoll instance is closed (what its peers observe when a process dies), the instance itself is closed, and the
+    /// process is never scheduled again. Only state that is durable in the real system survives: descriptors other
+    /// processes hold, files, the other processes' memory. Returns the number of descriptors closed.
+    pub fn crash_proc(&mut self, i: usize, extra_fds: &[i32]) -> usize {
+        if i >= self.procs.len() || self.procs[i].state == P_DEAD || self.procs[i].state == P_STARTING { return 0; }
+        let epfd = self.procs[i].epfd;
+        let mut fds: Vec<i32> = Vec::new();
+        if let Ok(txt) = std::fs::read_to_string(format!("/proc/self/fdinfo/{epfd}")) {
+            for l in txt.lines() { if let Some(r) = l.strip_prefix("tfd:") { if let Some(n) = r.split_whitespace().next().and_then(|x| x.parse::<i32>().ok()) { fds.push(n); } } }
+        }
+        fds.extend_from_slice(extra_fds);
+        fds.sort(); fds.dedup();
+        for fd in &fds { self.on_close(*fd); sys::close(*fd); }
+        sys::close(epfd);
+        self.procs[i].state = P_DEAD;
+        self.procs[i].crashed = true;
+        self.stats.fault("process_crash");
+        self.trace.mix(0xDEAD ^ ((i as u64) << 16) ^ ((fds.len() as u64) << 32));
+        if self.log_on { let nm = self.procs[i].name.clone(); let n = fds.len(); self.logf(|| format!("CRASH {nm}: {n} descriptors closed")); }
+        fds.len()
     }
 
     /// Declare a new simulated process (a thread that will run real code under this world).
